@@ -28,6 +28,8 @@ SECRET = "S3CR3T-T0K3N-9917"
 FAILS = ["none", "ctor", "before", "endpoint", "status", "after"]
 PATHS = {"hit": "/hit", "debuginfo": "/debug-info", "unknown": "/no/such", "listing": "/dir/", "rx": "/rx/5",
          "file": "/dir/f.txt", "postonly": "/post-only",
+         # the listing of the document root itself, under two spellings
+         "rootlisting": "/", "rootlisting2": "//",
          # near spellings of the debug address: unknown paths like any other
          "dbgslash": "/debug-info/", "dbgsub": "/debug-info/x", "dbgdouble": "//debug-info", "dbgupper": "/Debug-Info",
          "dbgdot": "/./debug-info", "dbgext": "/debug-info.html"}
@@ -199,7 +201,8 @@ def oracle(case):
     on = effective(attr, ov)
     out = []
     if not on:
-        for leak in LEAKS:
+        # (the document root is a value of the configuration dump: its absolute path is not for a client without debug)
+        for leak in LEAKS + [_st["root"]]:
             if leak in body:
                 out.append(Violation("c20-leak:%s" % fail, case,
                                      "debug is effectively off but the response contains %r" % leak))
